@@ -11,7 +11,8 @@ primitives of Base.Prims.
   io/bam.py           BamBufferExtractor.__getitem__ / _make_contigous (gather, no state change) / data   gen_bam_*
   io/delimited_buffers.py  DelimitedBuffer._get_buffer_extractor  +1 arithmetic, and whether entry ends are taken
                       before the carriage-return adjustment                                             gen_delim_*
-  io/buffers/sam.py   SAMBuffer.join_fields   cell_ends, index of the separator to drop, empty-tag test gen_sam_*
+  io/buffers/sam.py   SAMBuffer._get_buffer_extractor (entry ends before the CR adjustment), SAMBufferExctractor._get_extra_field
+                      (start, end at the line break or the CR before it, length), SAMBuffer.join_fields                 gen_sam_*
 Fail closed: anything outside the subset raises Unsupported and the definition is emitted as `unit`.
 """
 import ast
@@ -92,6 +93,11 @@ class ListKernel(Kernel):
                 if k != 'list' or kc != 'Z':
                     raise Unsupported('np.insert outside insert(list, 0, scalar): %s' % s)
                 return '(insert0 %s %s)' % (c, t), 'list'
+            if f in ('np.maximum', 'max') and len(node.args) == 2 and not node.keywords:
+                a, ka = self.tx(node.args[0], params, deps)
+                b, kb = self.tx(node.args[1], params, deps)
+                if ka == 'Z' and kb == 'Z':
+                    return '(Z.max %s %s)' % (a, b), 'Z'
             raise Unsupported('call outside the subset: %s' % s)
         if isinstance(node, ast.BinOp) and isinstance(node.op, (ast.Add, ast.Sub, ast.Mult)):
             op = {ast.Add: '+', ast.Sub: '-', ast.Mult: '*'}[type(node.op)]
@@ -512,6 +518,54 @@ def gen():
 
     # ---------------- SAMBuffer.join_fields
     sam = parse('bionumpy/io/buffers/sam.py')
+
+    def samextract():
+        f = find_function(sam, 'SAMBuffer._get_buffer_extractor')
+        seq = stmts(f)
+        ee = only_assignment(f, 'entry_ends')
+        l, r = binop(ee, ast.Add)
+        if src_of(l) != 'all_ends[:, -1]':
+            raise Unsupported('entry_ends = %s' % src_of(ee))
+        k = ListKernel(f, {'all_ends[:, -1]': 'last_end'}, {})
+        pos_entry = [i for i, st in enumerate(seq) if isinstance(st, ast.Assign) and src_of(st.targets[0]) == 'entry_ends'][0]
+        cr = [i for i, st in enumerate(seq) if isinstance(st, ast.Assign) and src_of(st.targets[0]) == 'all_ends'
+              and src_of(st.value) == 'cls._modify_for_carriage_return(all_ends, data)']
+        first = [i for i, st in enumerate(seq) if isinstance(st, ast.Assign) and src_of(st.targets[0]) == 'all_ends'
+                 and src_of(st.value) == 'RaggedArray(delimiters[1:], n_fields)']
+        if len(cr) != 1 or len(first) != 1 or not first[0] < pos_entry:
+            raise Unsupported('all_ends / carriage-return adjustment not found')
+        if src_of(only_assignment(f, 'ends')) != 'all_ends[:, :common_fields]' or \
+                [i for i, st in enumerate(seq) if isinstance(st, ast.Assign) and src_of(st.targets[0]) == 'ends'][0] < cr[0]:
+            raise Unsupported('field ends are not taken from the adjusted table')
+        out = k.define_typed('gen_sam_entry_end', ['last_end'], ee, 'Z')
+        out += 'Definition gen_sam_entry_ends_before_cr : bool := %s.\n' % ('true' if pos_entry < cr[0] else 'false')
+        # _get_extra_field
+        g = find_function(sam, 'SAMBufferExctractor._get_extra_field')
+        st = only_assignment(g, 'starts')
+        k1 = ListKernel(g, {'self._field_starts[:, -1]': 'last_start', 'self._field_lens[:, -1]': 'last_len'}, {})
+        out += k1.define_typed('gen_sam_extra_start', ['last_start', 'last_len'], st, 'Z')
+        e0 = assigned(g, 'ends', 0)
+        e1 = assigned(g, 'ends', 1)
+        if len([x for x in stmts(g) if isinstance(x, ast.Assign) and src_of(x.targets[0]) == 'ends']) != 2:
+            raise Unsupported('ends assigned other than twice')
+        k2 = ListKernel(g, {'self._entry_ends': 'entry_end'}, {})
+        out += k2.define_typed('gen_sam_extra_end0', ['entry_end'], e0, 'Z')
+        l, r = binop(e1, ast.Sub)
+        if src_of(l) != 'ends' or not (isinstance(r, ast.Compare) and len(r.ops) == 1 and isinstance(r.ops[0], ast.Eq)
+                                      and isinstance(r.comparators[0], ast.Constant) and r.comparators[0].value == '\r'
+                                      and isinstance(r.left, ast.Subscript) and src_of(r.left.value) == 'self._data'):
+            raise Unsupported('carriage-return test: %s' % src_of(e1))
+        k3 = ListKernel(g, {'ends': 'end0'}, {})
+        out += k3.define_typed('gen_sam_extra_probe', ['end0'], r.left.slice, 'Z')
+        out += 'Definition gen_sam_extra_cr_char : Z := %d.\n' % ord('\r')
+        ln = only_assignment(g, 'lens')
+        k4 = ListKernel(g, {'ends': 'end1', 'starts': 'start'}, {})
+        out += k4.define_typed('gen_sam_extra_len', ['end1', 'start'], ln, 'Z')
+        rets = [x for x in stmts(g) if isinstance(x, ast.Return)]
+        if len(rets) != 1 or src_of(rets[0].value) != 'self._extract_data(lens, starts)':
+            raise Unsupported('return %s' % [src_of(x.value) for x in rets])
+        return out
+    emit(defs, 'gen_sam_entry_end', samextract)
 
     def samjoin():
         f = find_function(sam, 'SAMBuffer.join_fields')
